@@ -389,6 +389,16 @@ func (ctx *Context) evaluate() {
 		return false
 	}
 
+	// 新生成的字符串按长度计入算力(每256字节1点)，否则 x = x + x 这类倍增在算力上限内就能耗尽内存
+	chargeNewString := func(v *VMValue) bool {
+		if v != nil && v.TypeId == VMTypeString {
+			if s, ok := v.Value.(string); ok && len(s) >= 256 {
+				return numOpCountAdd(IntType(len(s) / 256))
+			}
+		}
+		return false
+	}
+
 	diceStateIndex := -1
 	var diceStates []struct {
 		times    IntType // 次数，如 2d10，times为2
@@ -695,6 +705,9 @@ func (ctx *Context) evaluate() {
 				if ctx.Error != nil {
 					return
 				}
+				if chargeNewString(ret) {
+					return
+				}
 				stackPush(ret)
 			} else {
 				ctx.Error = fmt.Errorf("类型错误: [%s]无法被调用，必须是一个函数", funcObj.ToString())
@@ -799,6 +812,9 @@ func (ctx *Context) evaluate() {
 			stack[e.top].TypeId = VMTypeString
 			stack[e.top].Value = outStr
 			e.top++
+			if chargeNewString(&stack[e.top-1]) {
+				return
+			}
 		case typeLoadName, typeLoadNameRaw, typeLoadNameWithDetail:
 			name := code.Value.(string)
 			var val *VMValue
@@ -870,6 +886,9 @@ func (ctx *Context) evaluate() {
 				ctx.Error = errors.New(opErr)
 			}
 			if ctx.Error != nil {
+				return
+			}
+			if code.T == typeAdd && chargeNewString(ret) {
 				return
 			}
 			stackPush(ret)
